@@ -22,6 +22,8 @@ type c11Gen struct {
 	allowEmptyIf          bool
 	noHuge                bool // no packages beyond 1 MiB (C12 keeps inputs small)
 	allowTermsAfterBlock  bool // inside deferred (While) blocks
+	allowRootScope        bool // Scope(\) directives
+	allowSplitIndexField  bool // an IndexField outside the Scope(\) that declares its registers
 }
 
 var c11Predefined = []string{"_GPE", "_PR_", "_SB_", "_SI_", "_TZ_"}
@@ -684,6 +686,44 @@ func (g *c11Gen) program() c11Case {
 	}
 	top = g.transform(top)
 
+	// Scope(\) { ... }: runs of top-level terms wrapped in a directive that names
+	// the root itself (a name string that consists of its prefix only)
+	if g.allowRootScope {
+		var wrapped []amlObj
+		for i := 0; i < len(top); {
+			if rapid.IntRange(0, 7).Draw(g.t, "rootscope") != 0 {
+				wrapped = append(wrapped, top[i])
+				i++
+				continue
+			}
+			n := rapid.IntRange(1, 3).Draw(g.t, "rootscopelen")
+			if n > len(top)-i {
+				n = len(top) - i
+			}
+			if !g.allowSplitIndexField {
+				// F-C11f: field units merged into the root later would follow an
+				// IndexField over them that sits in the root directly
+				for k := 0; k < n; k++ {
+					if top[i+k].K == "field" {
+						vlib.For("C11").Exclude("F-C11f Field kept out of a Scope(\\) directive")
+						n = k
+						break
+					}
+				}
+				if n == 0 {
+					wrapped = append(wrapped, top[i])
+					i++
+					continue
+				}
+			}
+			g.stats.scopeDirectives++
+			g.stats.rootScopes++
+			wrapped = append(wrapped, amlObj{K: "scope", Abs: "\\", W: g.width(), Name: amlName{Root: true}, Body: append([]amlObj{}, top[i:i+n]...)})
+			i += n
+		}
+		top = wrapped
+	}
+
 	// split into tables
 	nt := rapid.IntRange(1, 3).Draw(g.t, "ntables")
 	var c c11Case
@@ -715,6 +755,8 @@ func TestVerifC11(t *testing.T) {
 			allowOperatorCallArgs: !vlib.OpenFinding("F-C11b"),
 			allowEmptyIf:          !vlib.OpenFinding("F-C11c"),
 			allowTermsAfterBlock:  !vlib.OpenFinding("F-C11e"),
+			allowRootScope:        true,
+			allowSplitIndexField:  !vlib.OpenFinding("F-C11f"),
 		}
 		c := g.program()
 		fail, _ := c11Run(c)
@@ -735,6 +777,7 @@ func TestVerifC11(t *testing.T) {
 		add(g.stats.miscExprs > 0, "misc-operator(unary/index/divide/sizeof/...)")
 		add(g.stats.hugePkg > 0, "package-longer-than-1MiB")
 		add(g.stats.methodDecls > 0, "object-declared-in-method-body")
+		add(g.stats.rootScopes > 0, "scope-directive-naming-the-root")
 		labels = append(labels, fmt.Sprintf("tables=%d", g.stats.tables))
 		st.Case(c, (g.stats.scopeDirectives > 0 || g.stats.relocated > 0) && g.stats.callsWithArgs > 0, labels...)
 		if fail != nil && strings.HasPrefix(fail.Msg, "VERIF-HARNESS") {
